@@ -877,6 +877,7 @@ Proof.
     inv_fin Hs Hc Hr Hw Hn.
   - (* LDeliver, reader woken *)
     destruct (l_closed s) eqn:Ecl; injection H as <-; inv_fin Hs Hc Hr Hw Hn.
+    eapply Hw. exact H.
   - (* LClose, idle *)
     injection H as <-. inv_fin Hs Hc Hr Hw Hn.
   - (* LClose, checked *)
@@ -885,7 +886,6 @@ Proof.
     injection H as <-. inv_fin Hs Hc Hr Hw Hn.
   - (* LClose, woken *)
     injection H as <-. inv_fin Hs Hc Hr Hw Hn.
-    Show.
 Qed.
 
 Theorem linv_reachable : forall tr s, lrun l_init tr = Some s -> linv s.
@@ -937,10 +937,6 @@ Proof.
   - destruct (l_closed s); cbn in Ho; discriminate.
   - destruct (l_closed s); cbn in Ho; discriminate.
   - destruct (l_closed s); cbn in Ho; discriminate.
-  - cbn in Ho. discriminate.
-  - cbn in Ho. discriminate.
-  - cbn in Ho. discriminate.
-  - cbn in Ho. discriminate.
 Qed.
 
 (* What Read returns without end-of-file is a non-empty prefix of the buffer;
@@ -961,7 +957,7 @@ Proof.
   destruct l as [n| | |d0|]; destruct (l_pc s) as [|m|m|m o] eqn:Epc; try discriminate.
   - destruct (n =? 0) eqn:E0; [discriminate|]. apply (Hrl n); [apply Nat.eqb_neq; exact E0|exact Ho].
   - destruct (l_tok s); [cbn in Ho; discriminate|]. destruct (l_closed s); cbn in Ho; discriminate.
-  - assert (Hm : m <> 0) by (apply Hn; rewrite Epc; reflexivity).
+  - assert (Hm : m <> 0) by (apply Hn; reflexivity).
     destruct o; [apply (Hrl m); assumption|].
     destruct (l_buf s) as [|b0 br] eqn:Eb; cbn in Ho; [discriminate|].
     injection Ho as <-. split.
@@ -971,10 +967,6 @@ Proof.
   - destruct (l_closed s); cbn in Ho; discriminate.
   - destruct (l_closed s); cbn in Ho; discriminate.
   - destruct (l_closed s); cbn in Ho; discriminate.
-  - cbn in Ho. discriminate.
-  - cbn in Ho. discriminate.
-  - cbn in Ho. discriminate.
-  - cbn in Ho. discriminate.
 Qed.
 
 (* after the close nothing is delivered any more *)
